@@ -26,6 +26,8 @@ type stream struct {
 	// of csrand draws one integer): lets a harness steer a length the code under
 	// test draws at random to its extremes
 	force8 [][8]byte
+	// scripted answers: the next read whose length equals len(script[0]) yields it
+	script [][]byte
 }
 
 var s = &stream{orig: crand.Reader}
@@ -38,6 +40,11 @@ func Reader() io.Reader { return s }
 func (r *stream) Read(p []byte) (int, error) {
 	r.mu.Lock()
 	defer r.mu.Unlock()
+	if len(r.script) > 0 && len(p) == len(r.script[0]) {
+		copy(p, r.script[0])
+		r.script = r.script[1:]
+		return len(p), nil
+	}
 	if len(p) == 8 && len(r.force8) > 0 {
 		copy(p, r.force8[0][:])
 		r.force8 = r.force8[1:]
@@ -130,5 +137,23 @@ func Force8(b [8]byte) {
 func ClearForced() {
 	s.mu.Lock()
 	s.force8 = nil
+	s.script = nil
 	s.mu.Unlock()
+}
+
+// Script queues byte strings: each is handed to the next read of exactly its
+// length (reads of other lengths are served normally).  Scripted returns the
+// number still queued.
+func Script(chunks [][]byte) {
+	s.mu.Lock()
+	for _, c := range chunks {
+		s.script = append(s.script, append([]byte(nil), c...))
+	}
+	s.mu.Unlock()
+}
+
+func Scripted() int {
+	s.mu.Lock()
+	defer s.mu.Unlock()
+	return len(s.script)
 }
